@@ -104,7 +104,7 @@ Fixpoint pct_decode_fuel (fuel : nat) (s : list N) : list N :=
           | Some a, Some b => (a * 16 + b)%N :: pct_decode_fuel fuel' rest'
           | _, _ => 37%N :: pct_decode_fuel fuel' rest
           end
-        | _ => 37%N :: pct_decode_fuel fuel' rest
+        | _ => 37%N :: rest                       (* fewer than two characters behind '%': the rest is copied as it is *)
         end
       else if (c =? 43)%N then 32%N :: pct_decode_fuel fuel' rest    (* '+' *)
       else c :: pct_decode_fuel fuel' rest
@@ -120,8 +120,8 @@ Definition doh_value (k : doh_srv) (raw : list N) : list N :=
 
 Inductive doh_get_res := DohReject | DohMsg (m : list N).     (* DohReject: 400 Bad Request *)
 
-Definition doh_get (k : doh_srv) (raw : list N) : doh_get_res :=
-  let v := doh_value k raw in
+(* from the VALUE of the dns parameter (as the handler sees it) to the message *)
+Definition doh_get_value (v : list N) : doh_get_res :=
   match v with
   | [] => DohReject                                             (* missing / empty dns parameter *)
   | _ =>
@@ -131,6 +131,50 @@ Definition doh_get (k : doh_srv) (raw : list N) : doh_get_res :=
          | None => DohReject
          end
   end.
+
+Definition doh_get (k : doh_srv) (raw : list N) : doh_get_res := doh_get_value (doh_value k raw).
+
+(* ---------- the query string ----------
+   net/http listener: getDnsKey scans the RAW query string: pairs separated by '&', empty pairs skipped, the pair is cut
+   at its first '='; the first pair whose key is "dns" gives the (raw) value; no such pair: the empty value.
+   fasthttp listener: QueryArgs().Peek("dns"): the same scan, but key AND value are percent-decoded, pairs whose decoded
+   key and value are both empty are dropped, and the first pair whose DECODED key is "dns" gives the decoded value. *)
+Fixpoint split_on (sep : N) (s cur : list N) : list (list N) :=
+  match s with
+  | [] => [rev cur]
+  | c :: r => if (c =? sep)%N then rev cur :: split_on sep r [] else split_on sep r (c :: cur)
+  end.
+
+Fixpoint cut_first (sep : N) (s : list N) : list N * list N :=       (* strings.Cut: before, after ([] when absent) *)
+  match s with
+  | [] => ([], [])
+  | c :: r => if (c =? sep)%N then ([], r) else let '(a, b) := cut_first sep r in (c :: a, b)
+  end.
+
+Definition dns_key : list N := [100; 110; 115]%N.                   (* "dns" *)
+Definition list_N_eqb (a b : list N) : bool := if list_eq_dec N.eq_dec a b then true else false.
+
+Fixpoint value_of_pairs (k : doh_srv) (pairs : list (list N)) : list N :=
+  match pairs with
+  | [] => []
+  | p :: rest =>
+    let '(key, value) := cut_first 61 p in
+    match k with
+    | DohNetHttp =>
+      if match p with [] => true | _ => false end then value_of_pairs k rest
+      else if list_N_eqb key dns_key then value else value_of_pairs k rest
+    | DohFastHttp =>
+      let key' := pct_decode key in
+      let value' := pct_decode value in
+      if match key', value' with [], [] => true | _, _ => false end then value_of_pairs k rest
+      else if list_N_eqb key' dns_key then value' else value_of_pairs k rest
+    end
+  end.
+
+Definition doh_query_value (k : doh_srv) (query : list N) : list N := value_of_pairs k (split_on 38 query []).
+
+(* the message of a GET request with this query string *)
+Definition doh_get_query (k : doh_srv) (query : list N) : doh_get_res := doh_get_value (doh_query_value k query).
 
 (* the fasthttp handler before the fix of D24: the whole pooled buffer is the message; [stale] = what the buffer held *)
 Definition doh_get_pinned (stale : list N) (raw : list N) : doh_get_res :=
